@@ -15,6 +15,7 @@
 (*   openat(bucket, O_CREAT|O_APPEND) ok     OpenBucketW(p)                *)
 (*   write on the bucket (whole record)      AppendRecord(p)               *)
 (*   unlink(content) by remove_hash          UnlinkContent(p)              *)
+(*   symlinkat(target, content) by link_to   SymlinkContent(p)             *)
 (*   a faulted / failing effect call         Fault(p)                      *)
 (*   crash                                   Crash                         *)
 (*   anything that changes nothing abstract  Noise (mkdir, stat, reads,    *)
@@ -117,6 +118,7 @@ Named(p, e) ==
     \/ (e.cls = "open_bucket_w" /\ OpenBucketW(p))
     \/ (e.cls = "append" /\ AppendRecord(p))
     \/ (e.cls = "unlink_content" /\ UnlinkContent(p))
+    \/ (e.cls = "symlink" /\ SymlinkContent(p))
     \/ (e.cls = "failed_effect" /\ Fault(p))
 
 T2Sys ==
